@@ -135,6 +135,9 @@ namespace Pistache
     {
         if (data.empty())
             throw std::invalid_argument("Invalid port: empty port");
+        // strtol alone would let leading blanks, a sign and "-0" through
+        if (data.find_first_not_of("0123456789") != std::string::npos)
+            throw std::invalid_argument("Invalid port: " + data);
         char* end     = nullptr;
         long port_num = strtol(data.c_str(), &end, 10);
         if (*end != 0 || port_num < Port::min() || port_num > Port::max())
@@ -420,6 +423,8 @@ namespace Pistache
         }
         else
         {
+            if (portPart.find_first_not_of("0123456789") != std::string::npos)
+                throw std::invalid_argument("Invalid port");
             char* end = nullptr;
             long port = strtol(portPart.c_str(), &end, 10);
             if (*end != 0 || port < Port::min() || port > Port::max())
